@@ -10,11 +10,12 @@ import os
 import sys
 
 REPO = os.environ.get("VERIF_REPO", "/repo")
-OUT = os.path.join(os.path.dirname(os.path.abspath(__file__)), "..", "coq", "Gen", "PylSrc.v")
+OUT = os.environ.get("VERIF_PYL_OUT") or os.path.join(os.path.dirname(os.path.abspath(__file__)), "..", "coq", "Gen", "PylSrc.v")
 
 TARGETS = {
-    "builtins.py": ["all", "any", "list", "tuple", "set", "filter", "enumerate"],
-    "itertools.py": ["takewhile", "dropwhile", "filterfalse", "starmap", "pairwise"],
+    "builtins.py": ["all", "any", "list", "tuple", "set", "filter", "enumerate", "sum", "_min_max"],
+    "itertools.py": ["takewhile", "dropwhile", "filterfalse", "starmap", "pairwise", "accumulate"],
+    "functools.py": ["reduce"],
 }
 
 
@@ -27,8 +28,9 @@ def q(s):
 
 
 class Tr:
-    def __init__(self, fn):
+    def __init__(self, fn, markers=()):
         self.fn = fn
+        self.markers = set(markers)      # module-level "not given" marker objects (Sentinel(...))
         # names bound to callables: those passed through _awaitify somewhere in the function
         self.callables = set()
         for n in ast.walk(fn):
@@ -80,12 +82,40 @@ class Tr:
                 and isinstance(e.left, ast.Name) and e.left.id in self.callables \
                 and isinstance(e.comparators[0], ast.Constant) and e.comparators[0].value is None:
             return "(EFnIsNone %s)" % q(e.left.id)
+        if isinstance(e, ast.Compare) and len(e.ops) == 1 and isinstance(e.ops[0], (ast.Is, ast.IsNot)) \
+                and isinstance(e.left, ast.Name) and e.left.id not in self.callables \
+                and isinstance(e.comparators[0], ast.Name) and e.comparators[0].id in self.markers:
+            t = "(EIsSentinel %s)" % q(e.left.id)
+            return t if isinstance(e.ops[0], ast.Is) else "(ENot %s)" % t
+        if isinstance(e, ast.Compare) and len(e.ops) == 1 and isinstance(e.ops[0], ast.Lt):
+            return "(ELt %s %s)" % (self.expr(e.left), self.expr(e.comparators[0]))
+        if isinstance(e, ast.IfExp):
+            if self.is_text(e):
+                return "EOpaqueStr"
+            return "(EIfExp %s %s %s)" % (self.expr(e.test), self.expr(e.body), self.expr(e.orelse))
+        if isinstance(e, ast.Call) and isinstance(e.func, ast.Name) and e.func.id == "isinstance" and len(e.args) == 2 and not e.keywords \
+                and isinstance(e.args[1], ast.Tuple) and [getattr(x, "id", None) for x in e.args[1].elts] == ["str", "bytes", "bytearray"]:
+            return "(EIsStrLike %s)" % self.expr(e.args[0])
+        if self.is_text(e):
+            return "EOpaqueStr"
         if isinstance(e, (ast.ListComp, ast.SetComp)) and len(e.generators) == 1:
             g = e.generators[0]
             if g.is_async and not g.ifs and isinstance(g.target, ast.Name) and isinstance(e.elt, ast.Name) \
                     and e.elt.id == g.target.id and isinstance(g.iter, ast.Name):
                 return "(%s %s)" % ("EListComp" if isinstance(e, ast.ListComp) else "ESetComp", q(g.iter.id))
         raise Unsupported(type(e).__name__)
+
+    def is_text(self, e):
+        """an expression that can only produce a string for an error message"""
+        if isinstance(e, ast.Constant) and isinstance(e.value, str):
+            return True
+        if isinstance(e, ast.JoinedStr):
+            return True
+        if isinstance(e, ast.IfExp):
+            return self.is_text(e.body) and self.is_text(e.orelse)
+        if isinstance(e, ast.Attribute) and e.attr == "__name__":
+            return True
+        return False
 
     # ----- statements -----
     def block(self, stmts):
@@ -119,6 +149,11 @@ class Tr:
                 if len(v.args) == 1 and isinstance(v.args[0], ast.Name) and v.args[0].id == x and not v.keywords:
                     return "(SAwaitify %s)" % q(x)
                 raise Unsupported("awaitify of another name")
+            if (isinstance(v, ast.Await) and isinstance(v.value, ast.Call) and isinstance(v.value.func, ast.Name) and v.value.func.id == "anext"
+                    and len(v.value.args) == 1 and isinstance(v.value.args[0], ast.Name) and len(v.value.keywords) == 1
+                    and v.value.keywords[0].arg == "default" and isinstance(v.value.keywords[0].value, ast.Name)
+                    and v.value.keywords[0].value.id in self.markers):
+                return "(SAnextDefault %s %s)" % (q(x), q(v.value.args[0].id))
             if x in self.callables:
                 if isinstance(v, ast.Name) and v.id == "bool":
                     return "(SSetFnBool %s)" % q(x)
@@ -142,6 +177,22 @@ class Tr:
             if not (isinstance(s.target, ast.Name) and isinstance(s.iter, ast.Name)):
                 raise Unsupported("async for shape")
             return "(SFor %s %s %s %s)" % (q(s.target.id), q(s.iter.id), self.block(s.body), self.block(s.orelse))
+        if isinstance(s, ast.Raise) and isinstance(s.exc, ast.Call) and isinstance(s.exc.func, ast.Name) \
+                and s.exc.func.id in ("TypeError", "ValueError") and builtins_all(self.is_text(x) for x in s.exc.args) and not s.exc.keywords \
+                and (s.cause is None or (isinstance(s.cause, ast.Constant) and s.cause.value is None)):
+            return "(SRaise %s)" % {"TypeError": "XTypeError", "ValueError": "XValueError"}[s.exc.func.id]
+        if isinstance(s, ast.Try) and len(s.body) == 1 and isinstance(s.body[0], ast.Assign) and isinstance(s.body[0].value, ast.IfExp):
+            # try: x = A if <marker test> else await anext(it)  except StopAsyncIteration: H
+            # only the anext branch can raise StopAsyncIteration: the try moves into that branch
+            a0 = s.body[0]
+            ie = a0.value
+            inner = ast.Try(body=[ast.Assign(targets=a0.targets, value=ie.orelse)], handlers=s.handlers, orelse=s.orelse, finalbody=s.finalbody)
+            if not (isinstance(ie.body, ast.Name) and len(a0.targets) == 1 and isinstance(a0.targets[0], ast.Name)):
+                raise Unsupported("try shape")
+            test = self.expr(ie.test)
+            if "EIsSentinel" not in test:
+                raise Unsupported("try shape")
+            return "(SIf %s (SAssign %s %s) %s)" % (test, q(a0.targets[0].id), self.expr(ie.body), self._stmt(inner))
         if isinstance(s, ast.Try):
             if (len(s.body) == 1 and isinstance(s.body[0], ast.Assign) and len(s.body[0].targets) == 1
                     and isinstance(s.body[0].targets[0], ast.Name) and not s.orelse and not s.finalbody
@@ -162,13 +213,23 @@ class Tr:
         raise Unsupported(type(s).__name__)
 
 
+def builtins_all(it):
+    for x in it:
+        if not x:
+            return False
+    return True
+
+
 def translate():
     lines = ["(* GENERATED by harness/translate.py from %s -- do not edit, not committed *)" % REPO,
              "From Coq Require Import List ZArith String.", "Import ListNotations.",
-             "Require Import V.Model.Pyl.", "Local Open Scope string_scope.", ""]
+             "Require Import V.Kernel.Values V.Model.Pyl.", "Local Open Scope string_scope.", ""]
     names = []
     for fname, targets in TARGETS.items():
         tree = ast.parse(open(os.path.join(REPO, "asyncstdlib", fname)).read())
+        markers = [t.id for n in tree.body if isinstance(n, ast.Assign) and isinstance(n.value, ast.Call)
+                   and isinstance(n.value.func, ast.Name) and n.value.func.id in ("Sentinel", "object")
+                   for t in n.targets if isinstance(t, ast.Name)]
         found = {}
         for n in tree.body:
             if isinstance(n, (ast.AsyncFunctionDef, ast.FunctionDef)) and n.name in targets:
@@ -183,10 +244,27 @@ def translate():
                 if a.vararg or a.kwarg:
                     body = '(SUnsupported "variadic signature")'
                 else:
-                    body = Tr(n).block(n.body)
-            lines.append("Definition src_%s : fdef := mkFn %s [%s]\n  %s." % (t, q(t), "; ".join(q(p) for p in params), body))
+                    body = Tr(n, markers).block(n.body)
+            lines.append("Definition src_%s : fdef := mkFn %s [%s]\n  %s." % (t.lstrip("_"), q(t), "; ".join(q(p) for p in params), body))
+            if t == "_min_max":
+                # the public wrappers: `return await _min_max(iterable, key, <invert>, default)`
+                wr = []
+                for w in ("max", "min"):
+                    m = [x for x in tree.body if isinstance(x, ast.AsyncFunctionDef) and x.name == w]
+                    inv = "None"
+                    if m:
+                        b = [x for x in m[-1].body if not (isinstance(x, ast.Expr) and isinstance(x.value, ast.Constant))]
+                        if (len(b) == 1 and isinstance(b[0], ast.Return) and isinstance(b[0].value, ast.Await) and isinstance(b[0].value.value, ast.Call)
+                                and isinstance(b[0].value.value.func, ast.Name) and b[0].value.value.func.id == "_min_max" and not b[0].value.value.keywords
+                                and [getattr(x, "id", None) for x in b[0].value.value.args[:2]] == ["iterable", "key"]
+                                and len(b[0].value.value.args) == 4 and isinstance(b[0].value.value.args[2], ast.Constant)
+                                and isinstance(b[0].value.value.args[2].value, bool) and getattr(b[0].value.value.args[3], "id", None) == "default"
+                                and [x.arg for x in m[-1].args.args + m[-1].args.kwonlyargs] == ["iterable", "key", "default"]):
+                            inv = "(Some %s)" % ("true" if b[0].value.value.args[2].value else "false")
+                    wr.append("(%s, %s)" % (q(w), inv))
+                lines.append("Definition min_max_wrappers : list (string * option bool) := [%s].\n" % "; ".join(wr))
             lines.append("")
-            names.append(t)
+            names.append(t.lstrip("_"))
     lines.append("Definition all_sources : list fdef := [%s]." % "; ".join("src_" + t for t in names))
     text = "\n".join(lines) + "\n"
     os.makedirs(os.path.dirname(OUT), exist_ok=True)
